@@ -247,6 +247,14 @@ def closureLoop (c : SCfg) : Nat → Net → Net
     let net' := net.pass c
     if net'.sig = net.sig then net' else closureLoop c fuel net'
 
+/-- how many gossip passes `closureLoop` makes when it stops at a fixpoint (a pass that changed
+nothing); `none` if the fuel runs out first -/
+def closureCount (c : SCfg) : Nat → Net → Option Nat
+  | 0, _ => none
+  | fuel + 1, net =>
+    let net' := net.pass c
+    if net'.sig = net.sig then some 1 else (closureCount c fuel net').map (· + 1)
+
 def closureFuel : Nat := 64
 
 /-- **closure**: the idealised gossip of the property's quantifier -/
